@@ -47,6 +47,16 @@ def mis(Gl, Gr, q, shape=None):
     return Misorientation(q, symmetry=(Gl, Gr))
 
 
+def reduce_call(M, c):
+    """the reduction as the case asks for it: with the progress bar (`verbose=True`, output discarded) or without"""
+    if not c.get("verbose"):
+        return M.map_into_symmetry_reduced_zone()
+    import contextlib
+    import io
+    with contextlib.redirect_stderr(io.StringIO()), contextlib.redirect_stdout(io.StringIO()):
+        return M.map_into_symmetry_reduced_zone(verbose=True)
+
+
 _regions = {}
 
 
@@ -107,8 +117,13 @@ def reduce_check(ctx, c, outs):
         return f"no region is defined for ({Gl.name}, {Gr.name}) but the reduction did not raise NotImplementedError"
     with warnings.catch_warnings():
         warnings.simplefilter("ignore")
-        R = M.map_into_symmetry_reduced_zone()
+        R = reduce_call(M, c)
         Reg = region(c["kl"], c["kr"])
+        if c.get("verbose"):
+            R0 = M.map_into_symmetry_reduced_zone()
+            if not np.array_equal(R0.data, R.data):
+                return (f"({Gl.name}, {Gr.name}): the reduction with verbose=True returns {R.data.reshape(-1, 4).tolist()} but "
+                        f"{R0.data.reshape(-1, 4).tolist()} without the progress bar; M = {q.tolist()}")
     if tuple(R.shape) != shape:
         return f"shape changed from {shape} to {tuple(R.shape)}"
     if R.symmetry[0].name != Gl.name or R.symmetry[1].name != Gr.name:
@@ -165,7 +180,7 @@ def reduce_bulk_check(ctx, c, outs):
     with warnings.catch_warnings():
         warnings.simplefilter("ignore")
         try:
-            R = mis(Gl, Gr, q, (c["n"],)).map_into_symmetry_reduced_zone()
+            R = reduce_call(mis(Gl, Gr, q, (c["n"],)), c)
         except NotImplementedError:
             return None if not region_defined(Gl, Gr) else "NotImplementedError although a region is defined"
     r = R.data.reshape(-1, 4)
@@ -356,7 +371,7 @@ def generate(ctx):
         if _inv_improper({"kl": kl, "kr": kr}):
             continue        # open finding C05-laue-proper-subgroup-operations (reported by site reduce)
         ctx.count("reduce_bulk/improper", ("rbi", kl, kr), nontrivial=True)
-        yield "reduce_bulk", {"kl": kl, "kr": kr, "bulk": int(rng.integers(1 << 31)), "n": 60}
+        yield "reduce_bulk", {"kl": kl, "kr": kr, "bulk": int(rng.integers(1 << 31)), "n": 60, "verbose": bool(_ % 2)}
     pairs += cross
     per = 1 if ctx.tier == "quick" else 2
     for kl, kr in pairs:
@@ -372,8 +387,10 @@ def generate(ctx):
                 bp = boundary_points(rng, kl, kr)
                 if bp and rng.random() < 0.5:
                     q[0] = bp[0]
-            c = {"kl": kl, "kr": kr, "q": q, "shape": list(shape), "gl": int(rng.integers(48)), "gr": int(rng.integers(48))}
-            ctx.count("reduce/" + ("defined" if region_defined(Gl, Gr) else "undefined"), ("r", kl, kr, tuple(q[0])),
+            c = {"kl": kl, "kr": kr, "q": q, "shape": list(shape), "gl": int(rng.integers(48)), "gr": int(rng.integers(48)),
+                 "verbose": bool((kl + kr) % 3 == 0 or not (Gl.is_proper and Gr.is_proper) and (kl + 2 * kr) % 2 == 0)}
+            ctx.count("reduce/" + ("defined" if region_defined(Gl, Gr) else "undefined") + ("/verbose" if c["verbose"] else ""),
+                      ("r", kl, kr, tuple(q[0])),
                       nontrivial=Gl.size * Gr.size > 1)
             yield "reduce", c
             if region_defined(Gl, Gr) and _ == 0:
